@@ -277,7 +277,7 @@ class NameSanitizer:
         if keyword.iskeyword(name):
             return False
         # Check pattern: starts with letter/underscore, then letter/digit/underscore
-        return re.match(r"^[a-zA-Z_][a-zA-Z0-9_]*$", name) is not None
+        return re.fullmatch(r"[a-zA-Z_][a-zA-Z0-9_]*", name) is not None
 
 
 class ParamSubstitutor:
